@@ -46,7 +46,7 @@ TRUSTED_EXTRA = ["Model/ClientTree.lean's srv* functions restate Model/Session.l
 SIG_F5_WI = "C09:upload-dir:children-under-cwd/dest.name:write_into-dest-with-parents"
 SIG_F5_NOWI = "C09:upload-dir:children-under-cwd/source.name:no-write_into-nonempty-dest"
 
-AWKWARD_NAMES = ["notes; draft.txt", "a;b", "type=dir; x", "-archive", "-la", "-R old", "x -> y", "q\"uote", "sp  ace", "é ü", "[p]riv*?", "1 Jan  1 00:00 z"]
+AWKWARD_NAMES = ["...", "....", ".. .", "notes; draft.txt", "a;b", "type=dir; x", "-archive", "-la", "-R old", "x -> y", "q\"uote", "sp  ace", "é ü", "[p]riv*?", "1 Jan  1 00:00 z"]
 LEADING_BLANK_NAMES = [" lead.txt", "\u3000wide", "  two", "\tx"]
 DESTS = ["", "d", "d1/d2", "/abs/q"]
 EXTRA_DESTS = [".", "d/", "w2/d", "/w/q", "/q", "a", "d1/d2/d3", "/"]
